@@ -9,6 +9,8 @@ import traceback
 
 sys.path.insert(0, os.path.dirname(os.path.abspath(__file__)))
 import core  # noqa: E402
+import warnings
+warnings.simplefilter("ignore")
 
 TRUSTED_BASE = [
     "Lean 4.33.0 kernel (axioms allowed: propext, Classical.choice, Quot.sound; audited by #print axioms each run)",
